@@ -81,7 +81,7 @@ def vector_groups():
                                tier=kw.pop('tier', tier), replay=True, thorough_for=(['C16', 'C15'] if esz != 4 else []), **kw))
             g('set_capacity', ['C09', 'C16'], 'h_set_capacity', 'cstl_vector_set_capacity',
               'reallocation lands completely (live buffer of >= (cap+1)*size bytes in 128-bit arithmetic, bytes in range kept) or changes nothing',
-              shards=1)
+              shards=1, solver='kissat')
             g('reserve', ['C09', 'C16'], 'h_reserve', 'cstl_vector_reserve',
               'reserve: never shrinks, quiet no-op when growth is impossible, wf kept')
             g('resize', ['C09', 'C16'], 'h_resize', 'cstl_vector_resize',
@@ -123,13 +123,13 @@ def memory_groups():
     g('wp_reset', ['C05'], 'h_wp_reset', 'cstl_weak_ptr_reset', 'weak reset: soft-1, block released exactly at soft 1->0, memory untouched')
     g('wp_reset.empty', ['C05'], 'h_wp_reset', 'cstl_weak_ptr_reset', 'weak reset of an empty pointer is a no-op', defines=['-DVF_SP_EMPTY'])
     g('share.into_empty', ['C05'], 'h_share', 'cstl_shared_ptr_share', 'share into an empty pointer: hard+1, soft+1, same memory', defines=['-DVF_SHARE_INTO_EMPTY'])
-    g('share.empty_src', ['C05'], 'h_share', 'cstl_shared_ptr_share', 'share an empty pointer into an owner: the owner lets go as by reset', defines=['-DVF_SHARE_EMPTY_SRC'])
+    g('share.empty_src', ['C05'], 'h_share', 'cstl_shared_ptr_share', 'share an empty pointer into an owner: the owner lets go as by reset', defines=['-DVF_SHARE_EMPTY_SRC'], solver='kissat')
     g('share.occupied', ['C05'], 'h_share', 'cstl_shared_ptr_share', 'share into a pointer that owns another allocation: that allocation is let go exactly as by reset (destroyed iff last owner), then hard+1/soft+1 on the shared one', defines=['-DVF_SHARE_OCCUPIED'], timeout=900)
     g('weak_from.occupied', ['C05'], 'h_weak_from', 'cstl_weak_ptr_from', 'weak-from onto a weak pointer that refers to another allocation: that one loses exactly one weak reference (never an owner; memory untouched), then soft+1', defines=['-DVF_WEAK_FROM_OCCUPIED'], timeout=900)
     g('lock.occupied', ['C05'], 'h_lock', 'cstl_weak_ptr_lock', 'lock into a pointer that owns another allocation: that one is let go as by reset, then an owner iff an owner still exists', defines=['-DVF_LOCK_OCCUPIED'], unwind=2, timeout=900)
     g('weak_from', ['C05'], 'h_weak_from', 'cstl_weak_ptr_from', 'weak-from: soft+1 only', defines=['-DVF_WEAK_FROM'])
     g('lock', ['C05'], 'h_lock', 'cstl_weak_ptr_lock', 'lock into an empty pointer: an owner iff hard >= 1 (then hard+1/soft+1), else counters restored; lock flag clear again', defines=['-DVF_LOCK'], unwind=2)
-    g('lock.empty_wp', ['C05'], 'h_lock', 'cstl_weak_ptr_lock', 'lock of an empty weak pointer into an owner: the owner lets go as by reset', defines=['-DVF_LOCK_EMPTY_WP'], unwind=2)
+    g('lock.empty_wp', ['C05'], 'h_lock', 'cstl_weak_ptr_lock', 'lock of an empty weak pointer into an owner: the owner lets go as by reset', defines=['-DVF_LOCK_EMPTY_WP'], unwind=2, solver='kissat')
     g('unique', ['C05'], 'h_unique', 'cstl_shared_ptr_unique', 'unique() <=> soft == 1')
     g('unique.empty', ['C05'], 'h_unique', 'cstl_shared_ptr_unique', 'unique() of an empty pointer is true', defines=['-DVF_SP_EMPTY'])
     g('get', ['C05'], 'h_get', 'cstl_shared_ptr_get_const', 'get returns the managed address')
@@ -155,7 +155,7 @@ def memory_groups():
     ids = json.load(open(os.path.join(VERIF, 'spec', 'stray_memory.json')))
     for i, eid in enumerate(ids, 1):
         # "ensures false": the call must not return; the only reachable end is abort()
-        G.append(Group('memory.stray.' + eid, ['C20'], 'P', S, 'h_stray', enforce=fn_of[eid], sources=src,
+        G.append(Group('memory.stray.' + eid, ['C20'], 'P', S, 'h_stray', enforce=fn_of[eid], sources=src, solver='kissat',
                        defines=['-DVF_STRAY=%d' % i], covers=['abort'], unwind=2,
                        what='stray (bitwise-copied) object in this argument position, any pointer value: %s never returns normally and writes nothing before aborting' % fn_of[eid]))
     G.append(Group('memory.same_block', ['C05'], 'P', S, 'h_same_block', sources=src, unwind=2, replay=True,
@@ -185,12 +185,12 @@ def array_groups():
       're-allocating an object that is a view (any offset, any owner counts): old owner count released, fresh view from offset 0 or empty; every allocation-failure subset; unrepresentable nm*sz',
       timeout=800, solver='kissat')
     g('alloc.empty', ['C14', 'C16'], 'h_alloc', 'cstl_array_alloc', 'alloc on an empty object', defines=['-DVF_A_EMPTY'])
-    g('release', ['C14'], 'h_release', 'cstl_array_release', 'release of an internal buffer: NULL, nothing changes')
-    g('release.external', ['C14'], 'h_release', 'cstl_array_release', 'release of an external buffer: handed back only to the sole user', defines=['-DVF_A_EXTERNAL'], timeout=800)
+    g('release', ['C14'], 'h_release', 'cstl_array_release', 'release of an internal buffer: NULL, nothing changes', solver='kissat')
+    g('release.external', ['C14'], 'h_release', 'cstl_array_release', 'release of an external buffer: handed back only to the sole user', defines=['-DVF_A_EXTERNAL'], timeout=800, solver='kissat')
     g('set', ['C14', 'C16'], 'h_set', 'cstl_array_set', 'set wraps an external buffer or leaves the object empty')
     names = ['alloc', 'set', 'release', 'data_const', 'at_const', 'slice', 'unslice', 'reset']
     for i, n in enumerate(names, 1):
-        G.append(Group('array.stray.' + n, ['C20'], 'P', S, 'h_stray', enforce='cstl_array_' + n, sources=src,
+        G.append(Group('array.stray.' + n, ['C20'], 'P', S, 'h_stray', enforce='cstl_array_' + n, sources=src, solver='kissat',
                        defines=['-DVF_STRAY=%d' % i], covers=['abort'], unwind=2,
                        what='stray (bitwise-copied) array object: cstl_array_%s never returns normally and writes nothing before aborting' % n))
     return G
